@@ -232,10 +232,16 @@ class World(BaseWorld):
 
     def _call_interchange(self, real, i, j, left, interrupt_at=None):
         from discopy.rewriting import InterchangerError
+        tracer = LineTracer(lib_prefix(), "interrupt", interrupt_at) if interrupt_at else None
         try:
-            if interrupt_at:
-                with LineTracer(lib_prefix(), "interrupt", interrupt_at):
-                    got = real.interchange(i, j, left=left)
+            if tracer:
+                try:
+                    with tracer:
+                        got = real.interchange(i, j, left=left)
+                except Exception:
+                    if tracer.fired:      # the interrupt was re-raised as something else by C code
+                        raise Interrupt("converted")
+                    raise
             else:
                 got = real.interchange(i, j, left=left)
             return "value", got
@@ -390,10 +396,18 @@ class World(BaseWorld):
         t = self.tasks.get(op["task"])
         if t is None or t["status"] != "live":
             return "skipped"
+        tracer = LineTracer(lib_prefix(), "interrupt", op["interrupt_at"]) if op.get("interrupt_at") else None
         try:
-            if op.get("interrupt_at"):
-                with LineTracer(lib_prefix(), "interrupt", op["interrupt_at"]):
-                    got = next(t["gen"])
+            if tracer:
+                try:
+                    with tracer:
+                        got = next(t["gen"])
+                except (StopIteration, Interrupt):
+                    raise
+                except Exception:
+                    if tracer.fired:
+                        raise Interrupt("converted")
+                    raise
                 self.note("F5_missed")
             else:
                 got = next(t["gen"])
